@@ -28,6 +28,10 @@ INITIAL = b"init"
 FILES = ["a", "b"]
 
 
+class _Redundant(Exception):
+    pass
+
+
 class Hist:
     def __init__(self):
         self.t = 0; self.ops = []
@@ -93,13 +97,26 @@ def concurrent(o1: int, o2: int, o3: int, o4: int, o5: int, o6: int,
     post: _
     """
     enter()
-    nclients = CFG["clients"]; per = CFG["ops"]
+    shape = CFG["shape"]                 # operations per client, e.g. [2, 1]
+    nclients = len(shape)
     fixed = CFG.get("fixed_ops")
-    opsel = [o1, o2, o3, o4, o5, o6][:nclients * per]
+    opsel = [o1, o2, o3, o4, o5, o6][:sum(shape)]
     if fixed is not None:
         for i, f in enumerate(fixed):
             opsel[i] = f
-    plan = [[pick(OPS, opsel[c * per + j]) for j in range(per)] for c in range(nclients)]
+    dom = CFG.get("ops_domain", [0, 1, 2, 3, 4, 5])
+    plan = []; pos = 0
+    for c in range(nclients):
+        row = []
+        for j in range(shape[c]):
+            o = opsel[pos + j]
+            if isinstance(o, int) and not hasattr(o, "var") and fixed is not None and pos + j < len(fixed):
+                row.append(OPS[o])
+            else:
+                if o >= len(dom):
+                    return True                      # outside this obligation's operation domain
+                row.append(OPS[pick(dom, o)])
+        plan.append(row); pos += shape[c]
     choices = [c0, c1, c2, c3, c4, c5, c6, c7, c8, c9]
     used = [0]
 
@@ -108,7 +125,9 @@ def concurrent(o1: int, o2: int, o3: int, o4: int, o5: int, o6: int,
         if i >= len(choices):
             return 0
         c = choices[i]
-        return c if c < n else 0
+        if c >= n:
+            raise _Redundant()           # the same schedule is reached with c < n: do not explore it twice
+        return pick(list(range(n)), c)
     sch = S.Scheduler(choose, preemptions=CFG.get("preemptions", 2))
     real_dir = None
     saved_lock = FC.Lock
@@ -118,7 +137,8 @@ def concurrent(o1: int, o2: int, o3: int, o4: int, o5: int, o6: int,
             fs = _RealFS(real_dir, sch)
         else:
             fs = M.ModelFS()
-            fs.hook = lambda op, path: sch.point(op + " " + path) if op in ("open-r", "read", "open-w", "write", "close") else None
+            pts = tuple(CFG.get("points", ("open-r", "read", "open-w", "write", "close")))
+            fs.hook = lambda op, path: sch.point(op + " " + path) if op in pts else None
         for f in FILES[:1]:
             fs.put("/" + f if real_dir is None else f, INITIAL) if hasattr(fs, "put") else fs.files.__setitem__("/" + f, INITIAL)
         initial = {FILES[0]: INITIAL, FILES[1]: None}
@@ -168,6 +188,8 @@ def concurrent(o1: int, o2: int, o3: int, o4: int, o5: int, o6: int,
             sch.spawn("client%d" % ci, client, (ci,))
         try:
             sch.run()
+        except _Redundant:
+            return True
         except S.Deadlock:
             return verdict(False)                   # every call returns
         if known_pattern[0] and kf.is_open("C18/update-during-load"):
@@ -268,7 +290,7 @@ class _RealFS:
 
 def bounds(tier):
     q = tier == "quick"
-    return {"clients": "2 x 2 operations" if q else "2 x 2, 3 x 1 and 3 x 2 operations", "files": 2,
+    return {"clients": "2 clients: 2 operations | 1 operation" if q else "[2|2], [1|1|1] and [2|1] operations per client", "files": 2,
             "operations": "get / update / unload of either file, chosen symbolically",
             "preemptions": "<= %d (context switches forced by blocking are free)" % (2 if q else 3),
             "schedule decisions": "<= 10 symbolic choices among the runnable actors"}
@@ -278,16 +300,22 @@ def obligations(tier):
     q = tier == "quick"
     obs = []
     if q:
+        for a in (0, 2, 4):
+            obs.append({"name": "one file, clients [2 ops | 1 op], first op %s" % (OPS[a],), "fn": "concurrent",
+                        "cfg": {"shape": [2, 1], "preemptions": 2, "fixed_ops": [a], "ops_domain": [0, 2, 4], "points": ["read", "write"]},
+                        "timeout": 400})
         for a in range(6):
-            obs.append({"name": "2 clients x 2 ops, first op %s" % (OPS[a],), "fn": "concurrent",
-                        "cfg": {"clients": 2, "ops": 2, "preemptions": 2, "fixed_ops": [a]}, "timeout": 400})
+            obs.append({"name": "two files, clients [1 op | 1 op], first op %s" % (OPS[a],), "fn": "concurrent",
+                        "cfg": {"shape": [1, 1], "preemptions": 3, "fixed_ops": [a]}, "timeout": 400})
     else:
         for a in range(6):
             for b in range(6):
-                obs.append({"name": "2 clients x 2 ops, first ops %s %s" % (OPS[a], OPS[b]), "fn": "concurrent",
-                            "cfg": {"clients": 2, "ops": 2, "preemptions": 3, "fixed_ops": [a, b]}, "timeout": 1800})
-                obs.append({"name": "3 clients x 1 op, first ops %s %s" % (OPS[a], OPS[b]), "fn": "concurrent",
-                            "cfg": {"clients": 3, "ops": 1, "preemptions": 3, "fixed_ops": [a, b]}, "timeout": 1800})
+                obs.append({"name": "clients [2 | 2], first ops %s %s" % (OPS[a], OPS[b]), "fn": "concurrent",
+                            "cfg": {"shape": [2, 2], "preemptions": 2, "fixed_ops": [a, b]}, "timeout": 3000})
+                obs.append({"name": "clients [1 | 1 | 1], first ops %s %s" % (OPS[a], OPS[b]), "fn": "concurrent",
+                            "cfg": {"shape": [1, 1, 1], "preemptions": 3, "fixed_ops": [a, b]}, "timeout": 3000})
+                obs.append({"name": "clients [2 | 1] 3 preemptions, first ops %s %s" % (OPS[a], OPS[b]), "fn": "concurrent",
+                            "cfg": {"shape": [2, 1], "preemptions": 3, "fixed_ops": [a, b]}, "timeout": 3000})
     return obs
 
 
@@ -296,7 +324,7 @@ def _sweep(ops):
     import itertools as it
     saved = dict(CFG)
     try:
-        CFG.clear(); CFG.update({"clients": 2, "ops": 1, "preemptions": 3, "fixed_ops": list(ops), "real_files": False})
+        CFG.clear(); CFG.update({"shape": [1, 1], "preemptions": 3, "fixed_ops": list(ops), "real_files": False})
         for ch in it.product(range(2), repeat=9):
             if concurrent(0, 0, 0, 0, 0, 0, *ch, 0) is False:
                 return True
